@@ -438,7 +438,32 @@ def record_repo_tests(tag, outdir):
     if info["events"] == 0:
         info["skipped"] = "no event was recorded"
         return info, []
-    rejections = validate_jobs(tag, [(0, trace, prims)], outdir, "repotests", 0, timeout=900, parallel=1, missing_prim_rejects=True)
+    # If the specification's evaluation of an event needs an environment primitive on operands the recorded execution never
+    # applied an operator to (the table is built from the operands the hooks saw), the two evaluations took different routes
+    # inside that event - or a refactoring moved arithmetic away from the hooked function.  Nothing can be concluded about
+    # that event: it is dropped (counted as inconclusive) and the rest of the trace is validated.
+    inconclusive = 0
+    rejections = []
+    for _ in range(20):
+        rejections = validate_jobs(tag, [(0, trace, prims)], outdir, "repotests", 0, timeout=900, parallel=1, missing_prim_rejects=True)
+        undecided = [r for r in rejections if r.get("why")]
+        if not undecided:
+            break
+        at = undecided[0]["index"]
+        with open(trace) as tf:
+            lines = tf.readlines()
+        if not (1 <= at <= len(lines)):
+            raise ToolError(f"[{tag}] cannot locate the event TLC stopped at")
+        del lines[at - 1]
+        with open(trace, "w") as tf:
+            tf.writelines(lines)
+        inconclusive += 1
+        info["events"] -= 1
+        rejections = []
+    else:
+        info["skipped"] = "more than 20 events could not be evaluated by the specification with the recorded operands"
+        return info, []
+    info["inconclusive_events"] = inconclusive
     log(f"[{tag}] /repo's own tests under hooks: {stats['builds']} precompilations and {stats['evals']} evaluations recorded, "
         f"{info['events']} events validated against Trace_Api.tla, {len(rejections)} rejected")
     return info, rejections
